@@ -2025,31 +2025,24 @@ Lemma announced_in_quadrant ST init ls st c a u pg nr cl :
   grun ST (ginit init) ls = Some st ->
   let k := g_calls st c in
   let s := xa_stmt a in
-  k_x k = Some a -> xa_use_cached a = true -> k_st k = CS_done (O_rows u pg nr cl) ->
-  (forall s', g_cells st s' = init s') /\
+  k_x k = Some a -> k_st k = CS_done (O_rows u pg nr cl) ->
+  (forall s', g_cells st s' = init s' /\ g_ann st s' = []) /\
   (exists b rest, k_rcvd k = RRows b :: rest /\
      match rb_meta b with
      | RM_full nid cols => u = meta_of_cols nid cols
      | RM_none _ => m_cols u = m_cols (init s) \/ u = mock_empty
-     end) /\
-  (~ KnownClass ST st c (m_cols u) ->
-   forall c' id pm, In (RPrepared id pm) (k_rcvd (g_calls st c')) -> id = s_id (ST s) -> m_cols pm <> [] ->
-                    m_cols pm = m_cols u).
+     end).
 Proof.
-  intros Hinit HF HR k s Hx Huc Hd.
+  intros Hinit HF HR k s Hx Hd.
   assert (HI : noext_inv init st).
   { eapply (grun_noext ST init Hinit ls); try eassumption. constructor; simpl; auto. intros c0 m0 HH; discriminate. }
   destruct HI as [HC HA HE HS].
   assert (GR : greach ST init st) by (exists ls; assumption).
   destruct (decode_meta ST init st c a u pg nr cl GR Hx Hd) as [m [b [rs [rr [Hs [Hr [_ [_ [_ [Hm Hu]]]]]]]]]].
-  split; [exact HC|]. split.
-  - exists b, rr. split; [exact Hr|]. destruct (rb_meta b) as [n|nid cols]; [|exact Hu].
-    destruct (f_skip _); [|now right]. left. destruct Hu as [-> _].
-    destruct Hm as [->|HI]; [reflexivity|]. fold s in HI. rewrite HA in HI. destruct HI.
-  - intros NK c' id pm HI Hid Hne.
-    destruct (col_list_eq_dec (m_cols pm) (m_cols u)) as [E|N]; [exact E|].
-    exfalso. apply NK. exists a. split; [exact Hx|]. split; [apply HE|]. split; [exact Huc|].
-    exists c', id, pm. auto.
+  split; [intros s'; split; [apply HC|apply HA]|].
+  exists b, rr. split; [exact Hr|]. destruct (rb_meta b) as [n|nid cols]; [|exact Hu].
+  destruct (f_skip _); [|now right]. left. destruct Hu as [-> _].
+  destruct Hm as [->|HI]; [reflexivity|]. fold s in HI. rewrite HA in HI. destruct HI.
 Qed.
 
 (* ---- the concurrent-trace search builds runs too ---- *)
